@@ -55,6 +55,18 @@ def gen_gene(rng, lo, hi, idx, seqname, coding):
         if not coding:
             t["transcript_type"] = None  # filled with the gene type below
         txs.append(t)
+    if coding and rng.random() < 0.3:
+        # an isoform pair with the same CDS start and end but another internal structure (cassette / alternative splice
+        # site); the variant is listed before or after the original and, half of the time, gets no planted ORF
+        k = rng.randrange(len(txs))
+        c = specs.cassette_isoform(rng, txs[k])
+        first = 0 if strand == "PLUS" else -1
+        if c is not None and c["cds_ends"][first] - c["cds_starts"][first] <= {"ZERO": 0, "ONE": 1, "TWO": 2}[c["cds_frames"][first]]:
+            c = None  # start offset would swallow the whole 5'-most block (excluded for every transcript, see above)
+        if c is not None:
+            if rng.random() < 0.5:
+                c["_no_plant"] = True
+            txs.insert(k if rng.random() < 0.7 else k + 1, c)
     gtype = "protein_coding" if coding else rng.choice(NONCODING)
     for t in txs:
         t["transcript_type"] = "protein_coding" if coding else gtype
@@ -86,7 +98,7 @@ def gen_collection(rng, cidx):
             continue
         genes.append(g)
         for t in g["transcripts"]:
-            if t.get("cds_starts"):
+            if t.get("cds_starts") and not t.pop("_no_plant", False):
                 seq = specs.plant_orf(seq, t, rng, p_start=0.65, p_stop=0.65, start_codons=("ATG", "ATG", "TTG", "CTG", "GTG", "ATT", "ATA"))
     return {
         "genes": genes, "feature_collections": [], "variant_collections": [], "name": None, "id": None, "sequence_name": seqname,
